@@ -11,7 +11,7 @@ from typing import Final, Any
 from . import AString
 from .. import Params, Parseable
 from ..exceptions import NotParseable
-from ..primitives import Atom, List
+from ..primitives import Atom, List, String
 from ...bytes import BytesFormat, MaybeBytes, Writeable
 
 __all__ = ['FetchPartial', 'FetchRequirement', 'FetchAttribute', 'FetchValue']
@@ -132,6 +132,8 @@ class FetchAttribute(Parseable[bytes]):
     _section_end_pattern = re.compile(br' *\]')
     _partial_pattern = re.compile(br'< *(\d+) *\. *(\d+) *>')
 
+    _header_atom_pattern = re.compile(
+        br'[\x21\x23\x24\x26\x27\x2B-\x5B\x5E-\x7A\x7C\x7E]+')
     _sec_part_pattern = re.compile(br'([1-9]\d* *(?:\. *[1-9]\d*)*) *(\.)? *')
 
     def __init__(self, attribute: bytes,
@@ -191,6 +193,13 @@ class FetchAttribute(Parseable[bytes]):
         else:
             return FetchRequirement.CONTENT
 
+    @classmethod
+    def _header_name(cls, name: bytes) -> MaybeBytes:
+        # echoed as an atom when it can be one, else as a string
+        if cls._header_atom_pattern.fullmatch(name):
+            return name
+        return String.build(name)
+
     @property
     def raw(self) -> bytes:
         if self._raw is not None:
@@ -210,9 +219,10 @@ class FetchAttribute(Parseable[bytes]):
             if self.section.specifier:
                 parts.append(self.section.specifier)
                 if self.section.headers:
-                    headers = self.section.headers
+                    headers = [self._header_name(hdr)
+                               for hdr in sorted(self.section.headers)]
                     parts.append(b' ')
-                    parts.append(bytes(List(headers, sort=True)))
+                    parts.append(bytes(List(headers)))
             parts.append(b']')
         if self.partial:
             start, length = (self.partial.start, self.partial.length)
@@ -262,7 +272,8 @@ class FetchAttribute(Parseable[bytes]):
         elif specifier in (b'HEADER.FIELDS', b'HEADER.FIELDS.NOT'):
             params = params.copy(expected=[AString])
             header_list_p, buf = List.parse(after, params)
-            header_list = frozenset([bytes(hdr)
+            # the names themselves, however the client spelled them
+            header_list = frozenset([hdr.value
                                      for hdr in header_list_p.value])
             if not header_list:
                 raise NotParseable(after)
